@@ -23,15 +23,17 @@ type Shape struct {
 	Name string
 	KV   [][2]int // key length, value length per record
 	DT   []int64  // time of record i relative to 1s (default: i/2, non-decreasing)
+	Gap  int      // > 0: the message with this offset is deleted (through the real Delete) before the damage: offsets in a segment are increasing, not contiguous
 }
 
 var Shapes07 = []Shape{
-	{"1rec", [][2]int{{1, 3}}, nil},
-	{"2rec", [][2]int{{0, 0}, {1, 1}}, nil},
-	{"3rec", [][2]int{{3, 40}, {0, 1}, {40, 0}}, nil},
-	{"4rec", [][2]int{{1, 1}, {1, 1}, {1, 1}, {1, 1}}, nil},
+	{"1rec", [][2]int{{1, 3}}, nil, 0},
+	{"2rec", [][2]int{{0, 0}, {1, 1}}, nil, 0},
+	{"3rec", [][2]int{{3, 40}, {0, 1}, {40, 0}}, nil, 0},
+	{"4rec", [][2]int{{1, 1}, {1, 1}, {1, 1}, {1, 1}}, nil, 0},
 	// times that drop and partly rise again: the index timestamp is a running maximum
-	{"3rec-nonmonotone", [][2]int{{1, 2}, {2, 1}, {1, 1}}, []int64{10, 5, 7}},
+	{"3rec-nonmonotone", [][2]int{{1, 2}, {2, 1}, {1, 1}}, []int64{10, 5, 7}, 0},
+	{"4rec-gap", [][2]int{{1, 1}, {2, 2}, {1, 3}, {3, 1}}, nil, 1},
 }
 
 type Layout struct{ Times, Keys bool }
@@ -98,6 +100,11 @@ func BuildHead(dir string, sh Shape, l Layout, ver int) error {
 	}
 	if _, err := lg.Publish(msgs); err != nil {
 		return err
+	}
+	if sh.Gap > 0 {
+		if _, _, err := lg.Delete(map[int64]struct{}{int64(sh.Gap): {}}); err != nil {
+			return err
+		}
 	}
 	return lg.Close()
 }
@@ -296,8 +303,12 @@ func Base07(dir string, t Task) (log, idx []byte, recs []refcodec.Rec, ds []Dama
 	log, _ = os.ReadFile(filepath.Join(dir, logName))
 	idx, _ = os.ReadFile(filepath.Join(dir, idxName))
 	_, recs, _, _ = refcodec.ParseLog(log)
-	if len(recs) != len(Shapes07[t.Shape].KV) {
-		err = fmt.Errorf("reference parser sees %d records in a freshly written %d-record segment", len(recs), len(Shapes07[t.Shape].KV))
+	wantRecs := len(Shapes07[t.Shape].KV)
+	if Shapes07[t.Shape].Gap > 0 {
+		wantRecs--
+	}
+	if len(recs) != wantRecs {
+		err = fmt.Errorf("reference parser sees %d records in a freshly written %d-record segment", len(recs), wantRecs)
 		return
 	}
 	ds = Damages07(log, idx, t.Ver, Layouts[t.Layout], recs)
